@@ -91,10 +91,16 @@ macro_rules! assert_eq_ignore_ws {
 
 impl Rasn {
     pub(crate) fn inner_name(&self, name: &str, parent_name: &str) -> Ident {
+        // the hoisted definition is named by title-casing this name once more, which removes the
+        // underscore of an escaped keyword (`self` -> `R_Self`): spell the reference the same way
         format_ident!(
-            "{}{}",
-            parent_name,
-            self.to_rust_title_case(name).to_string()
+            "{}",
+            self.to_rust_title_case(&format!(
+                "{}{}",
+                parent_name,
+                self.to_rust_title_case(name)
+            ))
+            .to_string()
         )
     }
 
